@@ -331,6 +331,8 @@ def __infer_group_stmt(
     env: context.Environment,
 ) -> InferredVolatility:
     components = [ir.subject, ir.result] + [v for v, _ in ir.using.values()]
+    if ir.bindings is not None:
+        components.extend(part for part, _ in ir.bindings)
     return _common_volatility(components, env)
 
 
